@@ -368,15 +368,23 @@ func drawConcurrentScript(rt *rapid.T, c cfg.Config) fx.Script {
 func TestC20(t *testing.T) {
 	col := ev.Get()
 	col.Note("schedules are sampled (repeated rounds, randomised goroutine programmes, GOMAXPROCS 2 and 16, Gosched sprinkled at drawn points) under the race detector; they are not enumerated")
+	// a stored case names a configuration and a concurrent script, not a schedule: it is run several times
+	again := func(c c20Case, n int) c20Case {
+		var out c20Case
+		for i := 0; i < n; i++ {
+			out.Members = append(out.Members, c.Members...)
+		}
+		return out
+	}
 	var rc c20Case
 	if replayPayload(t, &rc) {
-		c20Eval(t, rc)
+		c20Eval(t, again(rc, 12))
 		return
 	}
 	for _, f := range regressFiles("C20") {
 		var c c20Case
 		loadRegress(t, f, &c)
-		c20Eval(t, c)
+		c20Eval(t, again(c, 6))
 		col.Label("regress")
 	}
 	batch := pick(8, 12)
